@@ -485,6 +485,10 @@ class FuncFlow:
             st.env[target.id] = Ref(target.id, value, stmt)
         elif isinstance(target, (ast.Tuple, ast.List)):
             vv = value
+            hops = 0
+            while isinstance(vv, Ref) and hops < 10:       # `t = (a, b); x, y = t`: unpack the literal the alias names
+                vv = vv.value
+                hops += 1
             elts = None
             if isinstance(vv, (ast.Tuple, ast.List)) and len(vv.elts) == len(target.elts) and \
                     not any(isinstance(t, ast.Starred) for t in target.elts):
